@@ -69,6 +69,21 @@ def oracle_fails(pid, rec):
 NOT_APPLICABLE = {}
 
 PROPS = {
+    "C11": {
+        "manifest_text": "Lean 4 theorems (30) about the model of value_eq / value_cmp / scalar_eq / scalar_cmp for all values: equality is symmetric (for marker-free values with distinct object keys) and reflexive (NaN-free), != is its negation, partial_cmp is dual under swapping, whenever two values are ordered <= / >= hold exactly when < / > or == does and equal values are never strictly ordered, integer/float equality up to 2^53, and the outcome of == and of every ordering operator is invariant under permutation of object entry lists at any depth (construction independence, for the repaired value_cmp); every excluded point has a counterexample theorem replayed on the real code. Tied to /repo by all ordered pairs (and triples in thorough) of an ~80-value pool through Value, ValueCow, ValueViewCmp and through templates, with multi-key objects built several times independently.",
+        "manifest_note": "Trusted: Lean kernel + allowed axioms, theorem statements, hand-written value model (validated differentially). IEEE reading of doubles and the time crate's instant-based equality are modelled, not verified. Observations outside the property statement are recorded as counterexample theorems only (e.g. transitivity across date/date-time, `1 == true == 2`).",
+        "technique": "Lean 4 proof (well-founded induction on values, Perm-invariance via canonical sorting) + exhaustive differential correspondence on the pool",
+        "design_ref": "DESIGN.md section 7 C11",
+        "rule": "cases = query_state of every pool value; ALL ordered pairs of the ~80-value pool of the property's quantifier text (nil, booleans, integers incl. 2^53, 2^53+1 and the i64 bounds, floats incl. +-0, 2^53, 2^63, infinities, NaN, strings, dates, date-times with the same instant in different offsets, empty/blank/truthy/default markers, arrays and single/multi-key objects nested two deep), each pair observed in both argument orders on the same two freshly built instances through Value, ValueViewCmp (two routes), ValueCow (Owned/Borrowed, all mixes, From<&Value>), ValueCow==Value, Value==ValueViewCmp, ScalarCow and Value==i64/f64/bool/&str/DateTime/Date; every pair involving a multi-key object built k times independently (fresh HashMap each, entries transmitted in that instance's iteration order); every ordered pair through a template (if == != < <= > >=, case/when, contains, uniq, sort: property); random recipes beyond the pool (arrays/objects of pool atoms, <= 6 keys, nested two deep, copies and one-leaf mutations); triples (quick: all same-kind scalar triples + 30000 random; thorough: all). non-trivial = distinct inputs",
+        "explanation": "Lean theorems C11_* about the model of value_eq/value_cmp/scalar_eq/scalar_cmp (symmetry, reflexivity, != negation, duality, consistency of < <= > >= with partial_cmp and ==, int/float equality up to 2^53, invariance under permutation of object entry lists at any depth for the repaired value_cmp, transitivity inside a scalar kind, counterexamples for every excluded point) + differential run against the real crates; the executable laws of Spec/C11.lean are evaluated on what the implementation answered (specfail), the model's prediction is compared separately (diff)",
+        "exhaustive": True,
+        "assumptions": [
+            "the theorems are about the repaired value_cmp (object entries compared in key order, patches/C11-object-cmp-sorted.diff); at the pinned commit the check reports VIOLATION law=construction-independent (defect D12) and every model/implementation difference is annotated as matching valueCmpOld, the model of the pinned code",
+            "IEEE-754 reading of a double (Fl.toFV) and i64->f64 rounding (roundI64ToF64) are modelled on integers and compared with the hardware on the pool and on random recipes only",
+            "date-times are transmitted as (local nanoseconds, offset); the time crate's OffsetDateTime ==/cmp (instant based) and replace_date are modelled, not verified",
+        ],
+        "trusted": ["std HashMap: distinct keys, get() finds the entry with an equal key (WFV hypothesis of the theorems)"],
+    },
     "C15": {
         "manifest_text": "Lean 4 theorems (29) for all 64-bit operands and all doubles: on integer operands plus/minus/times/abs/at_least/at_most equal the mathematical result when it fits in 64 bits and otherwise continue in floating point (after the fix: commit), divided_by/modulo satisfy a = q*b + r with |r| < |b|, zero divisors are errors, no panic site is reachable, a float operand never takes the integer path and the result is the named IEEE operation (glue), floor/ceil/round are the neighbouring integers with ties away from zero for every double within the 64-bit range (on the exact rational reading of the bit pattern), numeric strings behave like the numbers they spell. Tied to /repo by a differential run of the model and of an independent executable spec on the property's boundary grid in all encodings plus random operands, floats compared by bit pattern.",
         "manifest_note": "Trusted: Lean kernel + allowed axioms, theorem statements, hand-written model of math.rs (validated differentially). IEEE + - x / and powi are parameters of the model (glue theorems only), instantiated with hardware doubles in the driver; str::parse::<f64> is modelled as correctly rounded and validated per case.",
